@@ -14,6 +14,7 @@ import (
 
 	"verif/internal/enum"
 	"verif/internal/ev"
+	"verif/internal/explore"
 	"verif/oracle"
 	"verif/world"
 )
@@ -517,6 +518,98 @@ func init() {
 				l.Sample(map[string]any{"case": c.String(), "commands": cmdStrings(all)})
 			}
 		})
+		c06Faults(r)
+	})
+}
+
+// c06Faults — the same decisions while API READS fail: any <=1/2 of the calls of a disruption round (lists of pods, PDBs,
+// NodePools, NodeClaims ...) fail once or for the rest of the round (so that the 15 s re-validation meets the same
+// failure). A round may then decide nothing; what it does decide still has to be right: a node is deleted as Empty only
+// if it really has no reschedulable pod, and a node with pods is only removed by a command that simulated them
+// (replacement or capacity elsewhere: judged by the same oracle as the fault-free part).
+func c06Faults(r *ev.Rec) {
+	bound := 1
+	if r.Tier == "thorough" {
+		bound = 2
+	}
+	type fc struct {
+		name    string
+		nodes   []dNode
+		methods []string
+	}
+	loaded := func(n string, cpu int64) dNode {
+		return dNode{name: n, pool: "default", typ: "m", zone: "a", ct: "on-demand", pods: []dPod{{name: "p-" + n, cpu: cpu}}}
+	}
+	empty := func(n string) dNode { return dNode{name: n, pool: "default", typ: "m", zone: "a", ct: "on-demand"} }
+	cases := []fc{
+		{"one loaded node, nowhere else to go", []dNode{loaded("a", 3000)}, []string{"Emptiness"}},
+		{"loaded + empty", []dNode{loaded("a", 3000), empty("b")}, []string{"Emptiness"}},
+		{"two loaded nodes that could share one", []dNode{loaded("a", 1000), loaded("b", 1000)}, []string{"Emptiness", "MultiNodeConsolidation", "SingleNodeConsolidation"}},
+		{"loaded + empty, all methods", []dNode{loaded("a", 3000), empty("b")}, allMethods},
+	}
+	enum.Run(r, int64(len(cases)), func(idx int64, l *ev.Local) {
+		c := cases[idx]
+		ex := &explore.Explorer{Bound: bound, MaxExecs: 100000, Stop: r.Expired}
+		ex.Exec = func(run *explore.Run) {
+			env := buildDisrupt(dWorld{catalog: K1, pools: []*v1.NodePool{world.NodePool("default")}, nodes: c.nodes})
+			w := env.W
+			taken := w.AttachFaultsOpt(run, func(cl *world.Call) bool { return cl.Verb == "list" || cl.Verb == "get" }, true)
+			cmds, _ := env.round(c.methods...)
+			w.Client.Hook, w.CP.Hook = nil, nil
+			w.ClearPersistentFaults()
+			l.Eval()
+			l.Traces++
+			var faults []string
+			for _, f := range *taken {
+				faults = append(faults, f.Call+"="+f.Fault)
+			}
+			l.NontrivialH(ev.H(fmt.Sprintf("c06f/%d/%v/%v", idx, faults, cmdStrings(cmds))))
+			if len(cmds) == 0 {
+				l.Outcome("faults: no-command")
+			}
+			for _, cmd := range cmds {
+				l.Outcome(fmt.Sprintf("faults: %s %s candidates=%d replacements=%d", cmd.Reason(), cmd.Decision(), len(cmd.Candidates), len(cmd.Replacements)))
+				for _, cn := range cmdCandidates(cmd) {
+					var pods []string
+					for _, dn := range c.nodes {
+						if dn.name == cn {
+							for _, p := range dn.pods {
+								pods = append(pods, p.name)
+							}
+						}
+					}
+					if len(pods) == 0 {
+						continue
+					}
+					if string(cmd.Reason()) == "Empty" {
+						l.Violation("node with reschedulable pods deleted as Empty", fmt.Sprintf("node %s hosts %v (eviction cost > 0), yet a command with reason Empty deletes it  [%s; faults %v; commands %v]", cn, pods, c.name, faults, cmdStrings(cmds)),
+							map[string]any{"case": c.name, "faults": faults, "plan": run.Plan(), "choices": run.Choices()})
+					} else if len(cmd.Replacements) == 0 {
+						// a delete without replacement: the pods need room on a node that stays
+						room := false
+						removed := map[string]bool{}
+						for _, x := range cmdCandidates(cmd) {
+							removed[x] = true
+						}
+						for _, dn := range c.nodes {
+							if !removed[dn.name] {
+								room = true
+							}
+						}
+						if !room {
+							l.Violation("node with pods deleted without replacement although no node remains", fmt.Sprintf("command %s removes %s (pods %v) and leaves no node  [%s; faults %v]", cmdString(cmd), cn, pods, c.name, faults), map[string]any{"case": c.name, "faults": faults, "plan": run.Plan()})
+						}
+					}
+				}
+			}
+		}
+		ex.Explore()
+		noteDiverged(l, ex, "faults")
+		l.Transitions += int64(ex.Points)
+		if ex.Capped {
+			l.Outcome("fault-exploration-capped")
+			r.Exhaustive = false
+		}
 	})
 }
 
